@@ -5,7 +5,7 @@
    base0 (cyclic or not, as DeltaSelector may produce when it reuses stored
    deltas) and ANY positive entry sizes (header + deflated payload). *)
 From Coq Require Import List NArith Arith Bool.
-From GoGit Require Import Base.Out Model.Delta Model.PackEnc Proofs.C06Apply Proofs.C06Diff Proofs.C07 Proofs.C07Varint.
+From GoGit Require Import Base.Out Model.Delta Model.PackEnc Proofs.C06Apply Proofs.C06Diff Proofs.C07 Proofs.C07Varint Proofs.C07Acyclic.
 Import ListNotations.
 
 (* every requested node is written exactly once; the header count (= n, what head() writes) is the
@@ -52,6 +52,15 @@ Theorem C07_new_deltas_ok : forall pick (orig : nat -> bytes) k b,
   exists d, diff_delta pick (orig b) (orig k) = Some d /\ patch_delta (orig b) d = Ok (orig k).
 Proof. intros. apply diff_roundtrip; assumption. Qed.
 Print Assumptions C07_new_deltas_ok.
+
+(* on an acyclic graph (a rank decreasing along base pointers: what the selector produces without
+   reuse, bases having smaller indices) nothing is un-deltified: every entry keeps its chosen base *)
+Theorem C07_acyclic_keeps_deltas : forall n base0 esize (rank : nat -> nat) es,
+  (forall k b, base0 k = Some b -> rank b < rank k) ->
+  encode n base0 esize = Some es ->
+  forall k b off, In (k, b, off) es -> b = base0 k.
+Proof. intros n base0 esize rank es Hr H. eapply encode_acyclic; eassumption. Qed.
+Print Assumptions C07_acyclic_keeps_deltas.
 
 (* the recursion of Encoder.entry always terminates within the fuel of the model (n + 2) *)
 Theorem C07_fuel_sufficient : forall n base0 esize,
